@@ -54,13 +54,17 @@ func digestOf(v any) string {
 	return hex.EncodeToString(h[:8])
 }
 
-func expanded(raw []byte) (*spec.Swagger, error) {
+func expanded(raw []byte) (*spec.Swagger, error) { return expandedAt(raw, "") }
+
+// expandedAt resolves the $refs of a document; base is the path of the document when it refers to
+// other files by relative $refs ("" for a document that must be self-contained)
+func expandedAt(raw []byte, base string) (*spec.Swagger, error) {
 	doc, err := loads.Analyzed(json.RawMessage(raw), "")
 	if err != nil {
 		return nil, err
 	}
 	sw := doc.Spec()
-	if err := spec.ExpandSpec(sw, &spec.ExpandOptions{RelativeBase: "", SkipSchemas: false}); err != nil {
+	if err := spec.ExpandSpec(sw, &spec.ExpandOptions{RelativeBase: base, SkipSchemas: false}); err != nil {
 		return nil, err
 	}
 	return sw, nil
@@ -96,7 +100,7 @@ func cmdEmbedCompare(args []string) error {
 	if servedErr == nil {
 		out["served"] = digestOf(sg)
 	}
-	ein, err1 := expanded(in.Raw())
+	ein, err1 := expandedAt(in.Raw(), *input) // the input may refer to sibling files; the embedded flat document may not
 	efl, err2 := expanded(flat)
 	if err1 != nil || err2 != nil {
 		out["expandErr"] = fmt.Sprint(err1, err2)
